@@ -733,7 +733,8 @@ func (r *PipelineRunner) SaveToStore() {
 		WithField("component", "runner").
 		Debugf("Saving job state to data store")
 
-	r.mx.RLock()
+	// A write lock is needed since jobs are removed from the job maps here (retention, removed pipelines)
+	r.mx.Lock()
 	data := &store.PersistedData{
 		Jobs: make([]store.PersistedJob, 0, len(r.jobsByID)),
 	}
@@ -805,7 +806,7 @@ func (r *PipelineRunner) SaveToStore() {
 			User:      job.User,
 		})
 	}
-	r.mx.RUnlock()
+	r.mx.Unlock()
 
 	// We do not need to lock here, the single save loops guarantees non-concurrent saves
 
